@@ -1,6 +1,7 @@
 package main
 
 import (
+	"math"
 	"fmt"
 	"go/ast"
 	"go/parser"
@@ -164,6 +165,29 @@ func propC09(c *ctx) error {
 						return err
 					}
 				}
+			}
+		}
+	}
+	// IEEE special values: every comparison with a NaN is false except !=, infinities order as Go orders them, a zero
+	// keeps its sign through unary minus (1 / -0.0 is -Inf)
+	{
+		sp := vMap(kv{"nan", vF64(math.NaN())}, kv{"inf", vF64(math.Inf(1))}, kv{"one", vF64(1)}, kv{"z", vF64(0)}, kv{"n32", vF32(float32(math.NaN()))})
+		b := func(v bool) string { return fmt.Sprintf("bool:%v", v) }
+		for _, x := range []string{"nan", "n32", "0.0 / z", "inf - inf"} {
+			for _, y := range []string{"one", "1", "nan", "inf", "2.5"} {
+				for _, op := range relOps {
+					for _, src := range []string{x + " " + op + " " + y, y + " " + op + " (" + x + ")"} {
+						if err := run(J{"src": src, "envval": sp, "expect": b(op == "!=")}, false); err != nil {
+							return err
+						}
+					}
+				}
+			}
+		}
+		for src, want := range map[string]string{"inf > 1e308": b(true), "-inf < -1e308": b(true), "inf == inf": b(true), "inf >= inf": b(true), "1 / -z < 0": b(true),
+			"1.0 / -0.0 < 0": b(true), "1 / -z == -inf": b(true), "-z == z": b(true), "1 / z > 0": b(true), "(nan >= 1) || (nan <= 1)": b(false), "!(nan < 1) && !(nan >= 1)": b(true)} {
+			if err := run(J{"src": src, "envval": sp, "expect": want}, false); err != nil {
+				return err
 			}
 		}
 	}
